@@ -132,8 +132,10 @@ const (
 	requireDigest
 )
 
-// descriptorFromResponse tries to form a descriptor from an HTTP response,
-// filling in the Digest field using knownDigest if it's not present.
+// descriptorFromResponse tries to form a descriptor from an HTTP response.
+// The Digest field is knownDigest when that's non-empty (the content was
+// requested by digest, so that's what it must be verified against);
+// otherwise it's taken from the response.
 //
 // Note: this implies that the Digest field will be empty if there is no
 // digest in the response and knownDigest is empty.
@@ -170,7 +172,10 @@ func descriptorFromResponse(resp *http.Response, knownDigest digest.Digest, requ
 		if !ociref.IsValidDigest(string(digest)) {
 			return ociregistry.Descriptor{}, fmt.Errorf("bad digest %q found in response", digest)
 		}
-	} else {
+	}
+	if knownDigest != "" {
+		// The content was requested by digest: that digest is what the
+		// content must be verified against, whatever the server says.
 		digest = knownDigest
 	}
 	if (require&requireDigest) != 0 && digest == "" {
